@@ -7,6 +7,7 @@ import (
 	"bufio"
 	"fmt"
 	"io"
+	"os"
 	"os/exec"
 	"sort"
 	"strconv"
@@ -419,12 +420,13 @@ func tokenize(s string) []string {
 // ---------- portfolio ----------
 
 type Portfolio struct {
-	procs   map[string]*SolverProc
-	order   []string // preference order for proof obligations
-	feas    []string // order for feasibility queries
-	lastWin string
-	Stats   map[string]*BackendStat
-	logDir  string
+	procs    map[string]*SolverProc
+	order    []string // preference order for proof obligations
+	feas     []string // order for feasibility queries
+	lastWin  string
+	lastFeas string
+	Stats    map[string]*BackendStat
+	logDir   string
 }
 
 type BackendStat struct {
@@ -439,10 +441,14 @@ func NewPortfolio() *Portfolio {
 	p := &Portfolio{procs: map[string]*SolverProc{}, Stats: map[string]*BackendStat{}}
 	for _, n := range []string{"z3", "cvc5int", "z3new", "cvc5"} {
 		p.procs[n] = &SolverProc{be: backendDefs[n]}
+		if d := os.Getenv("GOSYM_SMTLOG"); d != "" {
+			f, _ := os.CreateTemp(d, n+"-*.smt2")
+			p.procs[n].log = f
+		}
 		p.Stats[n] = &BackendStat{}
 	}
 	p.order = []string{"z3", "cvc5int", "z3new", "cvc5"}
-	p.feas = []string{"z3", "cvc5", "cvc5int"}
+	p.feas = []string{"z3", "cvc5int", "cvc5", "z3new"}
 	return p
 }
 
@@ -472,14 +478,24 @@ func (p *Portfolio) record(r CheckResult) {
 // Feasible: quick sat check for path conditions.  unknown = treated as feasible by callers.
 func (p *Portfolio) Feasible(tb *TB, as []*Term, timeout time.Duration) CheckResult {
 	var last CheckResult
-	for i, n := range p.feas {
+	order := p.feas
+	if p.lastFeas != "" && p.lastFeas != order[0] {
+		order = []string{p.lastFeas}
+		for _, n := range p.feas {
+			if n != p.lastFeas {
+				order = append(order, n)
+			}
+		}
+	}
+	for i, n := range order {
 		to := timeout
 		if i == 0 {
-			to = timeout / 2
+			to = timeout / 4
 		}
 		r := p.procs[n].Check(tb, as, nil, to)
 		p.record(r)
 		if r.Status != "unknown" {
+			p.lastFeas = n
 			return r
 		}
 		last = r
